@@ -78,6 +78,7 @@ class Interp:
         self.restarted = 0
         self.carry = None
         self.ok_ids = set()
+        self.stale_epoch = False
         self.states = set()     # distinct unit normal forms produced (a measure of states reached)
         self.creators = {}      # id(unit) -> qualname of the library function that interned it
         self._inj = None
@@ -251,13 +252,14 @@ class Interp:
             res["carry"] = {"blobs": blobs, "digest": res["digest"], "n_ops": res["n_ops"],
                             "violations": res["violations"], "counters": res["counters"],
                             "probes": res["probes"], "faults_fired": res["faults_fired"],
-                            "restarts": self.restarted + 1}
+                            "restarts": self.restarted + 1, "stale_epoch": self.stale_epoch}
         return res
 
     def adopt(self, carry):
         """State that survived the restart: serialized blobs only (plus the accumulated
         verdicts of the previous world, for reporting)."""
         self.restarted = carry.get("restarts", 1)
+        self.stale_epoch = False   # a fresh process: nothing of the old dimension objects survives
         for i, blob in (carry.get("blobs") or {}).items():
             self.vals[int(i)] = ("blob", blob)
             self.mvals[int(i)] = None
@@ -663,8 +665,10 @@ class Interp:
         blob = self._serialise(x, op["codec"])
         blob["kind"] = op["kind"]
         blob["model"] = M.nf_json(mx) if (mx is not None and op["kind"] in ("unit", "qty")) else None
+        blob["n_fundamental"] = len(self.model.fundamental)
         if op["kind"] == "dim" and mx is not None:
             blob["model_dim"] = list(mx)
+            blob["n_fundamental"] = len(self.model.fundamental)
         if op["kind"] == "qty":
             blob["m"] = mag_desc(x.magnitude)
             if op["codec"] in ("json", "composite"):
@@ -680,6 +684,11 @@ class Interp:
                 return None
             return [(ent[1], None)]
         (blob, _), = prepared
+        if len(self.model.fundamental) > blob.get("n_fundamental", 10 ** 6):
+            # decoding across a Dimension.define: on the pinned tree this creates duplicate,
+            # narrower Dimension objects and (pickle) writes them into canonical units (known finding)
+            self.stale_epoch = True
+            self.probe("decode-across-dimension-define")
         y = self._deserialise(blob)
         mx = M.nf_from_json(blob["model"]) if blob.get("model") else None
         if blob.get("model_dim") is not None:
@@ -915,7 +924,8 @@ class C01Clauses(Clauses):
                 nf = self.I.nf_of(u)
                 self.I.violation(
                     "C01.stored",
-                    "C01/wrong-dimension/" + self.I.creators.get(id(u), "op:" + creator),
+                    "C01/wrong-dimension/" + ("after-decode-across-dimension-define" if self.I.stale_epoch else
+                                              self.I.creators.get(id(u), "op:" + creator)),
                     {"unit": M.nf_str(nf), "stored": list(stored), "factors_product": list(calc),
                      "during": creator},
                 )
@@ -953,7 +963,8 @@ class C01Clauses(Clauses):
                     self.reported.add(id(u))
                     self.I.violation(
                         "C01.predicted",
-                        "C01/wrong-dimension/" + self.I.creators.get(id(u), "op:" + creator),
+                        "C01/wrong-dimension/" + ("after-decode-across-dimension-define" if self.I.stale_epoch else
+                                                  self.I.creators.get(id(u), "op:" + creator)),
                         {"expr_nf": M.nf_str(m), "reported": list(got), "expected": list(want),
                          "during": creator},
                     )
